@@ -6,9 +6,10 @@ tie:   T-cor – the extracted model is run against the real momo::HashSet/HashM
 oracle: std::set twin + kit protocol/leak summary inside the harness (independent of the model)."""
 import os, re
 
-KINDS = {0: ['L1', 'L2', 'L3', 'L4', 'L4d'], 1: ['O1', 'O2', 'O3', 'O8'], 2: ['N1']}
+KINDS = {0: ['L1', 'L2', 'L3', 'L4', 'L4d'], 1: ['O1', 'O2', 'O3', 'O8'], 2: ['N1'], 3: ['P2', 'P3', 'P8']}
 TU_OF = {k: tu for tu, ks in KINDS.items() for k in ks}
-TU_NAME = {0: 'limp4', 1: 'open', 2: 'limp-one'}
+TU_NAME = {0: 'limp4', 1: 'open', 2: 'one', 3: 'limp'}
+TUS = (0, 1, 2, 3)
 
 
 def arm(r, slow, inten):
@@ -33,8 +34,10 @@ def gen_history(r, slow, nops, nkeys, inten, removes=18):
             ops.append('q%d' % k)
         elif t < 100 - 3:
             ops.append('v%d%s' % (r.below(3 * nkeys), arm(r, slow, inten)))
-        elif t < 100 - 1:
+        elif t < 100 - 2:
             ops.append('t')
+        elif t < 100 - 1 and r.chance(1, 3):
+            ops.append('x%d' % r.below(2))
         else:
             ops.append('c')
     return ops
@@ -48,7 +51,7 @@ def gen_cases(ctx, scale):
             ls = max(ls, 1)      # CalcCapacity(1 bucket of capacity 1) = 0 is not a usable start size
         cases.append((TU_OF[kind], '%s %s %d %d %s | %s' % (kind, keycat, dist, ls, sm, ' '.join(ops))))
     allk = [k for ks in KINDS.values() for k in ks]
-    main = ['L4', 'O3', 'O8', 'L2', 'O1', 'L1', 'L3', 'O2']
+    main = ['L4', 'O3', 'O8', 'L2', 'O1', 'L1', 'L3', 'O2', 'P2', 'P3', 'P8']
     # 1. random histories, all kinds x key categories x hash distributions x failure intensities
     for i in range(260 * scale):
         kind = r.choice(main) if r.chance(3, 4) else r.choice(allk)
@@ -81,7 +84,7 @@ def gen_cases(ctx, scale):
             add(kind, keycat, dist, ls, sm, ops)
     # 3. persistent refusal: the table is overloaded through the fallback path until "Hash table is full"
     for i in range(10 * scale):
-        kind = r.choice(main + ['N1', 'N1'])
+        kind = r.choice(main + ['N1', 'P2', 'P3'])
         keycat = r.choice(['S', 'F', 'T'])
         ls = r.choice([0, 1, 2])
         dist = r.choice([0, 4, 1, 2])
@@ -91,7 +94,7 @@ def gen_cases(ctx, scale):
         add(kind, keycat, dist, ls, 'S', ops)
     # 4. growth succeeds but (almost) every migration fails at once, sometimes refusal on top: 3+ generations + overload
     for i in range(36 * scale):
-        kind = r.choice(['O3', 'O8', 'O1', 'L4', 'L2', 'O2', 'L1', 'L3'])
+        kind = r.choice(['O3', 'O8', 'O1', 'L4', 'L2', 'O2', 'L1', 'L3', 'P2', 'P3', 'P8'])
         ls = r.choice([0, 0, 1, 2])
         dist = r.choice([0, 4, 4, 5, 2])
         prefuse = r.choice([0, 0, 0, 1, 2])
@@ -101,11 +104,16 @@ def gen_cases(ctx, scale):
             ops.append('i%d%s' % (k, 'a0' if t < prefuse else 'f1' if t < 8 else 'f%d' % r.range(1, 5)))
             if r.chance(1, 8): ops.append('r%d' % r.below(k + 1))
             if r.chance(1, 20): ops.append('q%d' % r.below(k + 1))
+        # in the multi-generation state: Reserve (granted / refused / interrupted), Clear, then more insertions
+        tail = r.below(4)
+        if tail == 0: ops += ['v%d' % r.range(60, 400)]
+        elif tail == 1: ops += ['v%da0' % r.range(60, 400), 'v%df%d' % (r.range(60, 400), r.range(0, 6)), 't', 'v%d' % r.range(100, 400)]
+        elif tail == 2: ops += ['x%d' % r.below(2)] + ['i%d%s' % (k, r.choice(['', 'f1', 'a0'])) for k in range(400, 420)]
         ops += ['t'] + ['i%d' % k for k in range(300, 300 + r.range(1, 40))]
         add(kind, r.choice(['T', 'T', 'T', 'S']), dist, ls, 'S', ops)
     # 5. fast-hash keys in LimP4 (one allocation per bucket array): migrations interrupted by refused bucket-array allocations
     for i in range(24 * scale):
-        kind = r.choice(['L4', 'L2', 'L3', 'L4', 'L1'])
+        kind = r.choice(['L4', 'L2', 'L3', 'L4', 'L1', 'P2', 'P3', 'P8'])
         ls = r.choice([0, 1, 2])
         dist = r.choice([0, 4, 4, 5, 2])
         ops = []
@@ -129,17 +137,30 @@ def gen_cases(ctx, scale):
 
 
 def run_tu(ctx, harness, tu, lines, tag):
-    """returns (sched_lines, annotated_cases)"""
-    path = os.path.join(ctx.build, '%s-%d.in' % (tag, tu))
-    open(path, 'w').write('\n'.join(lines) + '\n')
-    rc, out, err = ctx.run_lines([harness, 'sched'], path)
-    if rc != 0 or len(out) != len(lines):
-        # the real code crashed (assertion / signal / sanitizer): find the input.  The harness prints one line per
-        # finished case, so the culprit is the first case without output.
-        i = len(out)
-        culprit = lines[i] if i < len(lines) else None
-        return None, (culprit, (err[-600:] or 'harness printed %d lines for %d cases' % (len(out), len(lines))))
-    return out, None
+    """run the real code in `sched` mode; returns (kept_lines, output_lines, crashes).  When the real code dies
+    (assertion / signal / sanitizer) the culprit history (= first case without output: the harness flushes one line
+    per finished case) is recorded and the run continues with the remaining histories, so that the other stages
+    still see every history that does not crash."""
+    kept = []; outs = []; crashes = []
+    rest = list(lines); rounds = 0
+    while rest and rounds < 6:
+        rounds += 1
+        path = os.path.join(ctx.build, '%s-%d.in' % (tag, tu))
+        open(path, 'w').write('\n'.join(rest) + '\n')
+        rc, out, err = ctx.run_lines([harness, 'sched'], path)
+        n = min(len(out), len(rest))
+        if rc == 0 and len(out) == len(rest):
+            kept += rest; outs += out; rest = []
+            break
+        kept += rest[:n]; outs += out[:n]
+        if n < len(rest):
+            crashes.append((rest[n], (err[-600:] or 'exit code %d' % rc)))
+            rest = rest[n + 1:]
+        else:
+            crashes.append((None, err[-600:] or 'exit code %d' % rc)); rest = []
+    if rest:
+        crashes.append((None, 'more than 5 crashing histories, %d histories not run' % len(rest)))
+    return kept, outs, crashes
 
 
 STAT_KEYS = ['g2', 'g3', 'fb', 'refused', 'full', 'migfail', 'afail', 'extra', 'chk']
@@ -147,15 +168,14 @@ STAT_KEYS = ['g2', 'g3', 'fb', 'refused', 'full', 'migfail', 'afail', 'extra', '
 
 def oracle_and_annotate(ctx, harnesses, cases, tag, stats):
     """run the real code in `sched` mode: oracle verdicts + the observed schedule (model input)"""
-    bad = []; annotated = {0: [], 1: [], 2: []}
-    for tu in (0, 1, 2):
+    bad = []; annotated = {tu: [] for tu in TUS}
+    for tu in TUS:
         lines = [c for (t, c) in cases if t == tu]
         if not lines:
             continue
-        out, err = run_tu(ctx, harnesses[tu], tu, lines, tag)
-        if out is None:
-            culprit, msg = err
-            bad.append((tu, culprit or '(harness %s)' % TU_NAME[tu], 'the real container crashed (assertion/signal) on this history: ' + msg)); continue
+        lines, out, crashes = run_tu(ctx, harnesses[tu], tu, lines, tag)
+        for culprit, msg in crashes:
+            bad.append((tu, culprit or '(harness %s)' % TU_NAME[tu], 'the real container crashed (assertion/signal) on this history: ' + msg))
         ctx.evaluations += len(lines)
         for c, o in zip(lines, out):
             parts = o.split(' # ')
@@ -182,12 +202,42 @@ def oracle_and_annotate(ctx, harnesses, cases, tag, stats):
     return bad, annotated
 
 
+def source_digest(ctx, flags):
+    """content hash of everything the harness binary depends on (current headers of the repo under test included)"""
+    import hashlib
+    h = hashlib.sha256()
+    files = [os.path.join(ctx.pdir, 'harness.cpp'), os.path.join(ctx.root, 'harness', 'kit.h'), os.path.join(ctx.root, 'harness', 'private_access.h')]
+    inc = os.path.join(ctx.repo, 'include', 'momo')
+    for d, _, fs in sorted(os.walk(inc)):
+        files += [os.path.join(d, f) for f in sorted(fs)]
+    for f in files:
+        h.update(f.encode()); h.update(open(f, 'rb').read())
+    h.update(repr(flags).encode()); h.update(ctx.tier.encode())
+    return h.hexdigest()
+
+
 def build(ctx):
-    jobs = [('harness.cpp', 'h%d' % tu, ['-DC11_TU=%d' % tu, '-DC11_MAPS']) for tu in (0, 1, 2)]
-    res = ctx.cxx_many(jobs)
-    if any(res.get('h%d' % tu) is None for tu in (0, 1, 2)):
-        return None
-    return {tu: res['h%d' % tu] for tu in (0, 1, 2)}
+    """build the four harness TUs in parallel; a TU is rebuilt only if the content hash of its inputs changed"""
+    jobs = []; res = {}
+    for tu in TUS:
+        flags = ['-DC11_TU=%d' % tu, '-DC11_MAPS']
+        dig = source_digest(ctx, flags)
+        exe = os.path.join(ctx.build, 'h%d' % tu + ('.san' if ctx.tier == 'thorough' else ''))
+        stamp = exe + '.sha256'
+        if os.path.exists(exe) and os.path.exists(stamp) and open(stamp).read() == dig:
+            res[tu] = exe
+        else:
+            if os.path.exists(stamp): os.remove(stamp)
+            jobs.append((tu, flags, dig, stamp))
+    if jobs:
+        built = ctx.cxx_many([('harness.cpp', 'h%d' % tu, flags) for (tu, flags, dig, stamp) in jobs])
+        for (tu, flags, dig, stamp) in jobs:
+            path = built.get('h%d' % tu)
+            if path is None:
+                return None
+            open(stamp, 'w').write(dig); res[tu] = path
+    ctx.coverage['harness_rebuilt_tus'] = [tu for (tu, _, _, _) in jobs]
+    return res
 
 
 def replay(ctx, rp):
@@ -256,7 +306,7 @@ def run(ctx):
     stats.pop('_chk_cases', None)
     have_model = ctx.stages.get('prove', {}).get('ok') and ctx.extract()
     if have_model:
-        for tu in (0, 1, 2):
+        for tu in TUS:
             if not annotated[tu]:
                 continue
             mism, _ = ctx.correspond('tcor-' + TU_NAME[tu], annotated[tu], [harnesses[tu]], [ctx.model_exe])
@@ -272,14 +322,14 @@ def run(ctx):
     stats['insertions_reporting_table_full'] = stats.get('full', 0)
     stats['migrations_interrupted_by_injected_failure'] = stats.get('migfail', 0)
     ctx.coverage['reached'] = stats
-    ctx.coverage['input_distribution'] = {TU_NAME[tu]: sum(1 for (t, c) in cases if t == tu) for tu in (0, 1, 2)}
+    ctx.coverage['input_distribution'] = {TU_NAME[tu]: sum(1 for (t, c) in cases if t == tu) for tu in TUS}
     for (t, c) in cases[::max(1, len(cases) // 6)][:6]:
         ctx.add_sample(c[:400])
     return ctx.finish(rule=RULE)
 
 
 RULE = ('cases = random insert/remove/find/reserve histories over bucket kinds {LimP4<1..4> (one allocation per bucket array), Open2N2<1..3>, Open8, '
-        'One} x {fast-hash uint64 keys, slow-hash kit::ElemNtm keys} x {HashSet, HashMap} x 6 hash distributions x start sizes 2^0..2^4, '
+        'LimP<2,3,8>, One} x {fast-hash uint64 keys, slow-hash kit::ElemNtm keys} x {HashSet, HashMap} x 6 hash distributions x start sizes 2^0..2^4, '
         'each growth-capable op armed with "n-th allocation refused" or "n-th hash call throws"; plus systematic families: every failure index k=0..9 '
         'of a growth repeated over the next operations, persistent refusal until "Hash table is full", growth with every migration failing. '
         'distinct = distinct case line; non-trivial = history that reached >= 2 coexisting generations or a fallback insertion')
